@@ -1,11 +1,15 @@
 import Driver.Pure
+import Driver.Recv
 
 open Driver
 
 partial def loop {σ : Type} (h : IO.FS.Stream) (out : IO.FS.Stream) (st : σ)
     (step : σ → List String → σ × List String) : IO Unit := do
   let line ← h.getLine
-  if line.isEmpty then return ()
+  if line.isEmpty then
+    let (_, outs) := step st ["__end__"]
+    for o in outs do out.putStrLn o
+    return ()
   let (st', outs) := step st (tokens line)
   for o in outs do out.putStrLn o
   loop h out st' step
@@ -16,5 +20,6 @@ def main (args : List String) : IO UInt32 := do
   match args with
   | ["values"] => loop stdin stdout ({} : ValState) valuesStep; return 0
   | ["wire"] => loop stdin stdout ({} : ValState) wireStep; return 0
+  | ["receiver"] => loop stdin stdout ({} : RecvState) recvStep; return 0
   | ["normalize"] => loop stdin stdout ({} : ValState) normalizeStep; return 0
   | _ => IO.eprintln "usage: driver <suite>"; return 2
